@@ -60,6 +60,12 @@ CHECKS = {
         design="3/C18",
         technique="Lean 4 proof (mutual structural induction over BExp / expression lists) + model/code correspondence through a recording pyqubo stub",
     ),
+    "C16": dict(
+        text="Lean 4 theorems for every n, every position of the result qubit, every number of ancillas and every black-box gate list that is a clean classical xor-oracle: Walsh-Hadamard layer lemma; Deutsch-Jozsa (constant: all amplitude outside y=0 vanishes and the amplitude at y=0 is +-2^n; balanced: amplitude at y=0 vanishes); Bernstein-Vazirani (f(x)=x.s: only y=s survives, amplitude +-2^n); Simon (two-to-one F with period s: amplitude at every (y,z) with y.s=1 vanishes, squared amplitude independent of y on y.s=0, outcome weights equal); decode_output (Deutsch-Jozsa: Constant iff all output bits 0 on the repaired model, partial theorem + witness for the current code; BV/Simon: inverse of the C09 encoding). The gate-list model of the three constructors, the integer amplitude semantics, runClassical of the black box and decode_output are tied to the real objects by exact comparison on every algorithm object of the run (all constant/balanced functions on 1..3 bits x argument types, all secrets on 1..5 bits, all periods on 2..4 bits), whose exact output distribution from the harness' own state-vector simulator is also checked against the textbook guarantee.",
+        note="Trusted: Lean kernel (axioms propext, Classical.choice, Quot.sound only, audited per run); the amplitude semantics of H/Z/X/CX/CCX/MCX in QV/Model/Amp.lean (integer amplitudes, 2^{-h/2} factored out; compared on every run with harness/circ.py's simulator, itself validated against qiskit); the hypothesis 'the black box is a clean xor-oracle on classical basis states' is checked per compiled black box by the harness' classical simulator, black boxes failing it are skipped and counted (C02/C03/C06). 'With certainty' is proved as: amplitudes elsewhere vanish and the amplitude at the outcome is +-2^n (unitarity of the circuit is not proved separately). Open finding C16-dj-decode-nonint (DeutschJozsa.decode_output on Tuple/Qlist/Qchar arguments).",
+        design="3/C16",
+        technique="Lean 4 proof (induction on n over sums on bit lists, classical gates as involutions) + exhaustive model/code correspondence + exact state-vector distribution of the real circuits",
+    ),
 }
 
 NOT_YET = {
